@@ -9,6 +9,7 @@
 #ifndef MC_H
 #define MC_H
 #define _GNU_SOURCE
+#include <dirent.h>
 #include <errno.h>
 #include <fcntl.h>
 #include <inttypes.h>
@@ -181,7 +182,6 @@ static void mc_fail(const char *fmt, ...) __attribute__((format(printf, 1, 2)));
 static void mc_fail(const char *fmt, ...) {
     McWorker *w = mc_w;
     if (w->cur_failed) return;  // one violation per case
-    w->cur_failed = 1;
     if (mc_nknown && !mc_replaying) {
         char key[1024];
         mc_case_str(&w->cur, key, sizeof key);
@@ -191,6 +191,7 @@ static void mc_fail(const char *fmt, ...) {
                 return;
             }
     }
+    w->cur_failed = 1;
     w->nviol_total++;
     va_list ap;
     va_start(ap, fmt);
@@ -208,6 +209,19 @@ static void mc_fail(const char *fmt, ...) {
         va_end(ap);
     }
 }
+// report a violation of a sub-case (op, args) found while executing a batch case: the violation is keyed,
+// written and replayed as the sub-case
+#define MC_FAIL_AS(opidx, nargs_, args_, ...)                          \
+    do {                                                               \
+        McCase save__ = mc_w->cur;                                     \
+        McCase sub__;                                                  \
+        memset(&sub__, 0, sizeof sub__);                               \
+        sub__.op = (opidx);                                            \
+        for (int i__ = 0; i__ < (nargs_); i__++) sub__.a[i__] = (args_)[i__]; \
+        mc_w->cur = sub__;                                             \
+        mc_fail(__VA_ARGS__);                                          \
+        mc_w->cur = save__;                                            \
+    } while (0)
 #define MC_CHECK(cond, ...)             \
     do {                                \
         if (!(cond)) {                  \
@@ -471,6 +485,41 @@ static int mc_finish(void) {
     for (int i = 0; i < mc_ncrash; i++) all[nall++] = mc_crash[i];
     for (int i = 0; i < MC_MAXW; i++)
         for (int k = 0; k < mc_workers[i].nviol_rec; k++) all[nall++] = mc_workers[i].viol[k];
+    // regression cases: replay files of defects that were repaired (fixed: lines in known_findings.txt)
+    int nregress = 0;
+    {
+        char pat[256];
+        snprintf(pat, sizeof pat, "/verif/regress/%s", MC_PROPERTY);
+        DIR *d = opendir(pat);
+        struct dirent *de;
+        while (d && (de = readdir(d))) {
+            if (!strstr(de->d_name, ".json")) continue;
+            char path[600], buf[8192];
+            snprintf(path, sizeof path, "%s/%s", pat, de->d_name);
+            FILE *rf = fopen(path, "r");
+            if (!rf) continue;
+            size_t n = fread(buf, 1, sizeof buf - 1, rf);
+            buf[n] = 0;
+            fclose(rf);
+            char *q = strstr(buf, "\"case\": \"");
+            if (!q) continue;
+            q += 9;
+            char *e = strchr(q, '"');
+            if (e) *e = 0;
+            McCase c;
+            if (mc_case_parse(q, &c)) continue;
+            nregress++;
+            evals++;
+            char m[MC_MSG];
+            if (mc_confirm(&c, m, sizeof m) && nall < (int)(sizeof all / sizeof *all)) {
+                all[nall].c = c;
+                snprintf(all[nall].msg, MC_MSG, "regression case %s: %s", de->d_name, m);
+                nall++;
+                nviol_total++;
+            }
+        }
+        if (d) closedir(d);
+    }
     int nreported = 0, nknown = 0, nunrepro = 0;
     char dir[256];
     snprintf(dir, sizeof dir, "replay/%s", MC_PROPERTY);
@@ -567,8 +616,8 @@ static int mc_finish(void) {
         fprintf(f, "}");
         first = 0;
     }
-    fprintf(f, "\n  },\n  \"unreproduced\": %d,\n  \"known_findings\": %d,\n  \"harness_errors\": %d,\n", nunrepro, nknown,
-            harness_errors);
+    fprintf(f, "\n  },\n  \"unreproduced\": %d,\n  \"known_findings\": %d,\n  \"harness_errors\": %d,\n  \"regression_cases_replayed\": %d,\n", nunrepro, nknown,
+            harness_errors, nregress);
     fprintf(f, "  \"samples\": [");
     int ns = 0;
     for (int i = 0; i < MC_MAXW && ns < 10; i++)
